@@ -218,6 +218,8 @@ Proof.
   - destruct (artifact_present s d); [| reflexivity]. unfold ds_trash. destruct (existsb _ _); reflexivity.
   - destruct (ctype s r) as [[] |]; try reflexivity. destruct (d1 =? d2); [reflexivity |]. destruct (negb _); [reflexivity |].
     destruct (has_rec s d1 || memN d1 (loc s) || (has_rec s d2 || memN d2 (loc s))); reflexivity.
+  - assert (G : chains (fst (xfer s d r k)) = chains s) by (unfold xfer; destruct (negb _); [reflexivity |]; destruct (has_rec s d); reflexivity).
+    destruct (ctype s r) as [[] |]; try reflexivity; exact G.
 Qed.
 
 Opaque reaches.
@@ -323,4 +325,27 @@ Lemma ingest_of_held_refused_l : forall s d1 d2 r k,
 Proof.
   intros s d1 d2 r k H. simpl. destruct (ctype s r) as [[] |]; try (eexists; reflexivity).
   destruct (d1 =? d2); [eexists; reflexivity |]. destruct (negb _); [eexists; reflexivity |]. rewrite H. eexists. reflexivity.
+Qed.
+
+(* ---------- F. a dataset stored by transfer_from is held like one stored by put ---------- *)
+Lemma xfer_held_l : forall s d r k s', step s (Xfer d r k) = (s', Ok) -> has_rec s d = false ->
+  exists_flags s' d = (true, true, true) /\ located s' d = true /\ rec_path s' d = Some (r, k) /\ ctype s' r = Some Run /\
+  (forall l, In d l -> step s' (RegRemove l) = (s', Err Orphaned)).
+Proof.
+  intros s d r k s' H Hn.
+  assert (X : xfer s d r k = (s', Ok) /\ (ctype s r = None \/ ctype s r = Some Run)).
+  { simpl in H. destruct (ctype s r) as [[] |]; try discriminate; split; auto. }
+  destruct X as [X C]. unfold xfer in X. destruct (negb _); [discriminate |]. rewrite Hn in X. inversion X. clear X H.
+  assert (D : hasK d (add_row s d (r, k) (ds s)) = true) by (apply hasK_add_row_self; auto).
+  assert (M : memA (r, k) (addA (r, k) (files s)) = true) by apply memA_addA.
+  assert (L : memN d (addN d (loc s)) = true) by (apply memN_In, addN_In; left; reflexivity).
+  assert (F : exists_flags (mk (match ctype s r with None => (r, Run) :: colls s | Some _ => colls s end) (chains s) (add_row s d (r, k) (ds s)) (tags s) (calibs s)
+                 (addN d (loc s)) (trash s) ((d, (r, k)) :: recs s) (addA (r, k) (files s))) d = (true, true, true)).
+  { unfold exists_flags, artifact_present, rec_path, has_ds, has_rec. simpl. unfold hasK in D. rewrite D, N.eqb_refl. simpl. rewrite M. reflexivity. }
+  split; [exact F | split; [exact L | split; [| split]]].
+  - unfold rec_path. simpl. rewrite N.eqb_refl. reflexivity.
+  - unfold ctype. simpl. destruct C as [C | C].
+    + unfold ctype in C. destruct (find (fun p => fst p =? r) (colls s)); [discriminate |]. simpl. rewrite N.eqb_refl. reflexivity.
+    + unfold ctype in C. destruct (find (fun p => fst p =? r) (colls s)) eqn:E; [| discriminate]. rewrite E. exact C.
+  - intros l Hl. apply (registry_refuses_orphan_l _ l d Hl). simpl. apply addN_In. left. reflexivity.
 Qed.
